@@ -37,6 +37,9 @@ Bind(k) == CASE k = 0 -> KindBind
              [] k = 6 -> <<[n |-> "a", v |-> I(1)], [n |-> "b", v |-> S("s")], [n |-> "c", v |-> F(1, 1)], [n |-> "d", v |-> B(TRUE)]>>
              [] k = 7 -> <<[n |-> "a", v |-> IMax(0)], [n |-> "b", v |-> I(1)], [n |-> "c", v |-> IMin(0)], [n |-> "d", v |-> I(-1)]>>
              [] k = 9 -> <<[n |-> "a", v |-> F(-3, 1)], [n |-> "b", v |-> F(1, 2)], [n |-> "c", v |-> F(1, 0)], [n |-> "d", v |-> F(0, 0)]>>
+             [] k = 10 -> <<[n |-> "a", v |-> NaN], [n |-> "b", v |-> PInf], [n |-> "c", v |-> NInf], [n |-> "d", v |-> F(3, 1)]>>
+             [] k = 11 -> <<[n |-> "a", v |-> NaN], [n |-> "b", v |-> F(0, 0)], [n |-> "c", v |-> F(-2, 0)], [n |-> "d", v |-> PInf]>>
+             [] k = 12 -> <<[n |-> "a", v |-> F(1, 0)], [n |-> "b", v |-> F(0, 0)], [n |-> "c", v |-> F(-1, 0)], [n |-> "d", v |-> F(0, 0)]>>
              [] k = 8 -> <<[n |-> "a", v |-> A(<<I(10), I(20), I(30)>>)], [n |-> "b", v |-> I(2)],
                            [n |-> "c", v |-> O(<<[pk |-> "k", pv |-> I(5)], [pk |-> "Name", pv |-> O(<<[pk |-> "k", pv |-> I(7)]>>)]>>)],
                            [n |-> "d", v |-> I(1)]>>
@@ -110,6 +113,17 @@ RawAny == {"@for(;;)x@break@end", "@for(i = 0; i < 2;)x@break@end", "@for(i = 0;
            "{{ k9() }}", "{{ k9.() }}", "{{ k2.k9 }}", "{{ [k1, zz] }}", "{{ {a: zz} }}", "{{ {a} }}", "{{ {k2} }}", "{{ {zz} }}",
            "{{ k13.zz() }}", "{{ k12.len() }}", "{{ k15.len() }}", "{{ nil.x }}", "{{ nil[0] }}", "{{ true.x }}", "{{ (1).x }}"}
 
+\* C01: IEEE-754 semantics also on NaN and the infinities (from the data map and from float division by zero)
+Vars4 == {A_, B_, C_, D_}
+CmpOps == {"==", "!=", "<", ">", "<=", ">="}
+FL(n) == FloatL(n, 0)
+Ieee == {Bin(o, x, y) : o \in Ops, x \in Vars4, y \in Vars4}
+        \cup {Bin(c, Bin(ar, x, y), z) : c \in CmpOps, ar \in {"+", "-", "*", "/"}, x \in Vars4, y \in Vars4, z \in Vars4}
+        \cup {Tern(Bin(c, x, y), StrL("T"), StrL("F")) : c \in CmpOps, x \in Vars4, y \in Vars4}
+        \cup {Bin(c, Pre("-", Bin("/", x, y)), z) : c \in CmpOps, x \in Vars4, y \in Vars4, z \in Vars4}
+        \cup {Bin(c, Post(p, x), y) : c \in CmpOps, p \in {"++", "--"}, x \in Vars4, y \in Vars4}
+IeeeLit == {Bin(c, Bin("/", FL(n1), FL(n2)), Bin("/", FL(n3), FL(n4))) : c \in CmpOps, n1 \in {0, 1}, n2 \in {0, 1}, n3 \in {0, 1}, n4 \in {0, 2}}
+
 Cases ==
   CASE Family = "raw09" -> {[kind |-> "raw", src |-> r, b |-> 0, lay |-> "sp"] : r \in RawAny}
     [] Family = "pairs"   -> {[kind |-> "tree", e |-> e, b |-> b, lay |-> l] : e \in Pairs, b \in {1, 2, 3, 4, 5}, l \in {"sp", "tight"}}
@@ -119,6 +133,8 @@ Cases ==
     [] Family = "members" -> {[kind |-> "tree", e |-> e, b |-> 8, lay |-> l] : e \in MemberOps, l \in {"sp", "tight", "par"}}
     [] Family = "faults"  -> {[kind |-> "tree", e |-> e, b |-> b, lay |-> l] : e \in Faults, b \in {1, 3}, l \in {"sp", "nl"}}
     [] Family = "assign"  -> {[kind |-> "assign", e |-> e, b |-> b, lay |-> l] : e \in Pairs \cup Terns \cup Mixed, b \in {1, 3}, l \in {"sp", "tight"}}
+    [] Family = "ieee" -> {[kind |-> "tree", e |-> e, b |-> b, lay |-> "sp"] : e \in Ieee, b \in {10, 11, 12}}
+                          \cup {[kind |-> "tree", e |-> e, b |-> 12, lay |-> l] : e \in IeeeLit, l \in {"sp", "tight"}}
     [] Family = "kindsinfix" -> {[kind |-> "tree", e |-> e, b |-> 0, lay |-> "sp"] : e \in KindsInfix}
     [] Family = "kindsother" -> {[kind |-> "tree", e |-> e, b |-> 0, lay |-> l] : e \in KindsOther, l \in {"sp", "tight"}}
     [] Family = "reuse"   -> {[kind |-> "tree", e |-> e, b |-> b, lay |-> l] : e \in Reuse, b \in {1, 2, 3, 9}, l \in {"sp", "tight"}}
